@@ -151,6 +151,17 @@ CLAIMED = {
             "part of the statement and not checked; matrices are exported in mathematical (row, column) form from "
             "phosg's column-major storage.",
             "DESIGN.md 3.20"),
+    "C18": ("TLA+ relational predicates in exact BigNat arithmetic (spec/TimeFmt): DurationOk (format, padding, value "
+            "within half a unit at the printed precision), civil-from-days calendar, SizeOk / ParseAgrees; TLC checks "
+            "non-vacuity against an exact reference formatter and known dates, and validates recorded batches",
+            "Durations around nine unit boundaries +-20 us densely and +-2 s coarsely, every seconds-in-minute value 0..61 "
+            "with rounding-critical fractions in every magnitude branch, powers of ten, random up to 2^63, for every "
+            "precision -1..6 (totality: an exception is a failure); timestamps at day boundaries +-1 us, leap days, second "
+            "59 across 1970..9999 under a non-UTC local time zone; sizes at every power of 1024 +-2 and rounding-critical "
+            "values in both forms with parse_size of the result; timeval conversions.",
+            "Trusted: TLC. Sizes >= 15.99 EB are not driven (\"16.00 EB\" cannot be parsed back into 64 bits). A seconds "
+            "field of 60 after rounding is accepted.",
+            "DESIGN.md 3.18"),
 }
 
 NOT_YET = "check not built yet in this round (planned: see DESIGN.md section 3)"
